@@ -299,7 +299,9 @@ theorem connectingStep_ChansOK (s : Srv) (k : Nat) (r : Req) (env : Env) (hs : C
   split
   · split
     · exact fail_ChansOK _ _ _ _ _ hs
-    · exact ChansOK_same hs _ rfl rfl
+    · split
+      · exact fail_ChansOK _ _ _ _ _ hs
+      · exact ChansOK_same hs _ rfl rfl
   · exact fail_ChansOK _ _ _ _ _ hs
 
 theorem connectedStep_ChansOK (s : Srv) (k : Nat) (r : Req) (env : Env) (hs : ChansOK s) :
@@ -316,12 +318,14 @@ theorem connectedStep_ChansOK (s : Srv) (k : Nat) (r : Req) (env : Env) (hs : Ch
   · split
     · exact fail_ChansOK _ _ _ _ _ hs
     · split
-      · split
-        · exact fail_ChansOK _ _ _ _ _ hs
-        · exact ChansOK_same hs _ rfl rfl
-      · exact hs
-      · exact hs
       · exact fail_ChansOK _ _ _ _ _ hs
+      · split
+        · split
+          · exact fail_ChansOK _ _ _ _ _ hs
+          · exact ChansOK_same hs _ rfl rfl
+        · exact hs
+        · exact hs
+        · exact fail_ChansOK _ _ _ _ _ hs
   · exact fail_ChansOK _ _ _ _ _ hs
 
 theorem step_ChansOK (s : Srv) (op : Op) (env : Env) (hs : ChansOK s) : ChansOK (step s op env).1 := by
